@@ -1,9 +1,354 @@
-/- placeholder while the proofs are being written (replaced by the real property theorems) -/
-import Goat.Model.MemFS
+/-
+Property C01 — the in-memory filespace behaves as an abstract file tree on every history.
+
+  "After any sequence of filespace operations on the in-memory filespace (directly or through a
+   child view), every result and the whole observable tree equal those of a plain
+   tree-of-named-nodes model: a write creates missing parents and replaces content, mkdir is
+   idempotent, remove deletes a file or an empty directory only, recursive remove deletes the subtree,
+   copies are deep, queries agree with the tree, and no node that was never created (such as an entry
+   named '.') ever appears.  Byte slices and directory listings handed in or out are snapshots."
+
+Stated over the executable model `Goat/Model/MemFS.lean` (one function per method of
+`memfs.Filespace` / `FilespaceWrapper`, raw path *bytes* in, Go control flow) and the point-wise
+specification `Goat/Spec/FS.lean`.  Everything below holds for path strings of any spelling
+(`Op` carries the raw bytes; the only normalisation is `Path.norm` = `ReduceAbsPath`), byte contents
+of any length, histories of any length, and child views of any depth.
+
+Vocabulary (defined in `Goat/Spec/FS.lean`, `Goat/Base/*.lean`, `Goat/Proofs/*.lean`):
+  `norm raw`          `none` when the raw path climbs above the root, else its reduced segment list
+  `Plain s`           `s` is none of `""`, `.`, `..`;   `Reduced q`: every segment is `Plain` and `/`-free
+  `walk segs cur`     resolve a relative path by walking from directory stack `cur`
+  `abs t : State`     what stands at each path of the concrete tree `t` (`Path → Option Entry`)
+  `Inv t`             root is a directory, sibling names unique, every name real (`Node.WF`)
+  `ViewOK ref b`      handle `ref` is the root filespace (`b = []`) or a wrapper whose base path is
+                      `join b ++ "/"` with `b` reduced: a child view rooted at `b`
+  `step ref t op`     the model's call of `op` through handle `ref` on tree `t`: `(t', result)`
+  `FS.Step b S op r S'`   the specification of one call through a view rooted at `b`
+  `FS.Run views S ops rs S'`  … of a whole history;  `World.init.run ops` the model's history
+  `Keeps t t' segs`   `t'` is still a directory with unique sibling names, and any predicate true of all
+                      names of `t` and of `segs` is true of all names of `t'`
+  `supplied ops`      every real name occurring in the normal forms of the path arguments of `ops`
+
+SNAPSHOT CLAUSE — not a theorem here.  Full-strength statement (DESIGN C01, heap-level model):
+     ∀ ops, callerIds (runHeap ops) ∩ reachableIds (runHeap ops).tree = ∅
+  "no buffer or listing the caller holds is reachable from the tree, and vice versa, after any
+   history including caller-side mutations".
+  The value-level model below cannot express aliasing (its byte strings and listings are values), so
+  in it the clause holds vacuously; the heap-level model was cut (DESIGN 3.22 stretch item).  The
+  clause is decided by the alias probes `keep`/`mutate`/`recheck` of the correspondence and of the
+  oracle (checks/c01.py), and is labelled correspondence-only in MANIFEST `level_note`.
+-/
+import Goat.Proofs.MemFSCor
 
 namespace Goat.C01
-open Goat Goat.MemFS
 
-theorem init_empty : World.init.root = Node.empty := rfl
+open Goat Goat.Path Goat.FS Goat.MemFS
+
+/-! ### 1. Path normalisation (`varutil.ReduceAbsPath`) -/
+
+/-- Every segment of a reduced path is a real name: never `""`, `.` or `..`, and `/`-free. -/
+theorem reduce_plain (p : Bytes) (q : List Name) (h : norm p = some q) : Reduced q :=
+  norm_reduced p q h
+
+/-- `ReduceAbsPath` is exactly "walk the segments from the root": it fails iff the walk leaves the
+root, and otherwise yields the directory stack reached. -/
+theorem reduce_eq_walk (p : Bytes) : norm p = (walk (split p) []).map List.reverse :=
+  reduceGo_eq_walk (split p) []
+
+/-- Reducing twice is reducing once. -/
+theorem reduce_idem (p r : Bytes) (h : reduceAbsPath p = some r) : reduceAbsPath r = some r :=
+  Path.reduce_idem p r h
+
+/-- The path string a child view hands down, `base/` ++ reduced argument, reduces to the
+concatenation of the two segment lists: views compose by appending paths. -/
+theorem reduce_append (b q : List Name) (hb : Reduced b) (hq : Reduced q) :
+    norm (join b ++ slash :: join q) = some (b ++ q) :=
+  norm_base_join b q hb hq
+
+-- "/a/./../b//" reduces to ["b"];  "a/../.." climbs out
+example : norm [47, 97, 47, 46, 47, 46, 46, 47, 98, 47, 47] = some [[98]] := by decide
+example : norm [97, 47, 46, 46, 47, 46, 46] = none := by decide
+example : Reduced [[97], [46, 46, 46]] := by
+  intro s hs; simp at hs; rcases hs with rfl | rfl <;> decide
+example : reduceAbsPath [47, 97, 47, 47, 98] = some [97, 47, 98] := by decide
+
+/-! ### 2. One call refines the abstract tree -/
+
+/-- MAIN REFINEMENT.  Any of the 16 methods, with any raw path spelling, through the root filespace
+or a child view rooted at `b`, on any well-formed tree: the result and the whole abstract tree
+afterwards are those the point-wise specification prescribes (the tree after the call is given by
+a formula over the tree before the call). -/
+theorem memfs_refines (ref : FSRef) (b : List Name) (hv : ViewOK ref b) (t : Node) (ht : Inv t) (op : Op) :
+    FS.Step b (abs t) op (step ref t op).2 (abs (step ref t op).1) :=
+  (step_refines ref b hv t ht op).1
+
+/-- Well-formedness (root is a directory, sibling names unique, all names real) is preserved by
+every call. -/
+theorem wf_preserved (ref : FSRef) (b : List Name) (hv : ViewOK ref b) (t : Node) (ht : Inv t) (op : Op) :
+    Inv (step ref t op).1 :=
+  (step_refines ref b hv t ht op).2.1.inv ht (by
+    intro s hs
+    rcases List.mem_append.mp hs with h | h
+    · exact (hv.reduced s h).1
+    · exact opSegs_plain op s h)
+
+/-- A call that answers `err` leaves the concrete tree exactly as it was (no partial effects, e.g.
+no parents left behind by a refused write or copy). -/
+theorem failed_call_changes_nothing (ref : FSRef) (b : List Name) (hv : ViewOK ref b) (t : Node)
+    (ht : Inv t) (op : Op) (h : (step ref t op).2 = .err) : (step ref t op).1 = t :=
+  (step_refines ref b hv t ht op).2.2 h
+
+/-- Child views: a call through a wrapper with base path `join b ++ "/"` is the specification's call
+at `b ++ p` — in particular it is confined to what the root filespace does at that longer path. -/
+theorem view_refines (b : List Name) (hb : Reduced b) (t : Node) (ht : Inv t) (op : Op) :
+    FS.Step b (abs t) op (step (.wrap (join b ++ [slash])) t op).2
+      (abs (step (.wrap (join b ++ [slash])) t op).1) :=
+  (step_refines (.wrap (join b ++ [slash])) b (show Reduced b ∧ join b ++ [slash] = join b ++ [slash] from ⟨hb, rfl⟩) t ht op).1
+
+/-- Views of views, to any depth: `Filespace(raw)` through a view rooted at `b` succeeds for every
+non-climbing `raw` and yields a view rooted at `b ++ norm raw`. -/
+theorem view_of_view (ref : FSRef) (b : List Name) (hv : ViewOK ref b) (raw : Bytes) (q : List Name)
+    (hn : norm raw = some q) : ∃ v, openView ref raw = some v ∧ ViewOK v (b ++ q) :=
+  openView_some ref b hv raw q hn
+
+example : Inv Node.empty := inv_empty
+example : ViewOK .root [] := rfl
+example : ViewOK (.wrap [97, 47, 98, 47]) [[97], [98]] :=
+  ⟨by intro s hs; simp at hs; rcases hs with rfl | rfl <;> decide, by decide⟩
+-- from the view rooted at a/b: "c/./d/.." opens the view rooted at a/b/c, "../c" is refused
+example : openView (.wrap [97, 47, 98, 47]) [99, 47, 46, 47, 100, 47, 46, 46]
+    = some (.wrap [97, 47, 98, 47, 99, 47]) := by decide
+example : openView (.wrap [97, 47, 98, 47]) [46, 46, 47, 99] = none := by decide
+
+/-! ### 3. Every history -/
+
+/-- ALL HISTORIES.  For every finite sequence of calls, each through any handle opened so far
+(handle 0 = the root filespace, further handles = child views opened by earlier `Filespace` calls,
+at any depth), the results produced by the model and the final tree are a run of the
+specification from the empty filespace; and the final tree is well formed. -/
+theorem memfs_run_refines (ops : List (Nat × Op)) :
+    FS.Run [[]] State.empty ops (World.init.run ops).2 (abs (World.init.run ops).1.root)
+    ∧ Inv (World.init.run ops).1.root := by
+  have h := run_refines_from World.init worldOK_init ops
+  have e : World.init.views.map baseOf = [[]] := rfl
+  rw [e, show World.init.root = Node.empty from rfl, abs_empty] at h
+  exact ⟨h.1, h.2.inv⟩
+
+/-- The same from any reachable world (any tree satisfying the invariant, any set of open views). -/
+theorem memfs_run_refines_from (w : World) (hw : WorldOK w) (ops : List (Nat × Op)) :
+    FS.Run (w.views.map baseOf) (abs w.root) ops (w.run ops).2 (abs (w.run ops).1.root)
+    ∧ WorldOK (w.run ops).1 :=
+  run_refines_from w hw ops
+
+-- write "a/b" through the root, open the view "a", read "./b" through it, remove "b", look again
+example :
+    (World.init.run [(0, .writeFile [97, 47, 98] [1, 2]), (0, .filespace [97]),
+        (1, .readFile [46, 47, 98]), (1, .remove [98]), (0, .isExist [97, 47, 98]),
+        (1, .remove []), (0, .readDir [])]).2
+      = [.ok, .ok, .data [1, 2], .ok, .bool false, .err, .list [([97], true)]] := by decide
+
+/-- SNAPSHOT CLAUSE, value-level part only (see the header for the full-strength statement, which is
+not proved).  In the model every result handed out is a value: whatever a history has answered is
+left unchanged by any continuation of the history.  What is missing: the model has no heap, so it
+cannot express that a Go slice returned by `ReadFile`/`ReadDir` (or passed to `WriteFile`) is not
+aliased by the tree — that is checked on the implementation by the alias probes. -/
+theorem snapshot_partial (w : World) (ops more : List (Nat × Op)) :
+    (w.run (ops ++ more)).2 = (w.run ops).2 ++ ((w.run ops).1.run more).2 :=
+  (run_append w ops more).1
+
+example :
+    (World.init.run ([(0, .writeFile [97] [1]), (0, .readFile [97])] ++ [(0, .writeFile [97] [2])])).2
+      = [.ok, .data [1]] ++ [.ok] := by decide
+
+/-! ### 4. The sentences of the property -/
+
+-- the hypotheses used below are satisfiable by non-trivial values: a view rooted at `a`, an oddly
+-- spelled path `./b//c`, a non-empty tree
+example : norm [46, 47, 98, 47, 47, 99] = some [[98], [99]] := by decide
+example : (step (.wrap [97, 47]) Node.empty (.writeFile [46, 47, 98, 47, 47, 99] [7])).2 = .ok := by decide
+example : (step .root Node.empty (.mkdirAll [97, 47, 98])).2 = .ok := by decide
+example :
+    (step .root (step .root Node.empty (.writeFile [97, 47, 98] [1])).1 (.copy [97] [99, 47, 100])).2 = .ok := by
+  decide
+example :
+    (step .root (step .root Node.empty (.writeFile [97, 47, 98] [1])).1 (.removeAll [47, 97, 47])).2 = .ok := by
+  decide
+example :
+    (step (.wrap [97, 47]) (step .root Node.empty (.writeFile [97, 47, 98] [1])).1 (.remove [98])).2 = .ok := by
+  decide
+
+/-- "A write creates missing parents": after a successful `WriteFile` (any spelling, any handle)
+the path holds exactly the data and every proper prefix of it is a directory. -/
+theorem write_creates_parents (ref : FSRef) (b : List Name) (hv : ViewOK ref b) (t : Node) (ht : Inv t)
+    (raw data : Bytes) (p : List Name) (hn : norm raw = some p)
+    (hok : (step ref t (.writeFile raw data)).2 = .ok) :
+    abs (step ref t (.writeFile raw data)).1 (b ++ p) = some (.file data)
+    ∧ ∀ q, q <+: b ++ p → q ≠ b ++ p → abs (step ref t (.writeFile raw data)).1 q = some .dir := by
+  rw [write_post ref b hv t ht raw data p hn hok]
+  exact ⟨writeSt_at _ _ _, fun q h1 h2 => writeSt_parent _ _ q _ h1 h2⟩
+
+/-- "… and replaces content": whatever stood at the path, afterwards it is the new data, and no path
+other than the written one and its prefixes changes. -/
+theorem write_replaces (ref : FSRef) (b : List Name) (hv : ViewOK ref b) (t : Node) (ht : Inv t)
+    (raw data : Bytes) (p : List Name) (hn : norm raw = some p)
+    (hok : (step ref t (.writeFile raw data)).2 = .ok) :
+    abs (step ref t (.writeFile raw data)).1 (b ++ p) = some (.file data)
+    ∧ ∀ q, ¬ q <+: b ++ p → abs (step ref t (.writeFile raw data)).1 q = abs t q := by
+  rw [write_post ref b hv t ht raw data p hn hok]
+  exact ⟨writeSt_at _ _ _, fun q h => writeSt_frame _ _ q _ h⟩
+
+/-- A write succeeds exactly when the path is not the root, no node on the way is a file and the
+path is not a directory. -/
+theorem write_ok_iff (ref : FSRef) (b : List Name) (hv : ViewOK ref b) (t : Node) (ht : Inv t)
+    (raw data : Bytes) (p : List Name) (hn : norm raw = some p) :
+    (step ref t (.writeFile raw data)).2 = .ok ↔ FS.writeOk (abs t) (b ++ p) := by
+  have := memfs_refines ref b hv t ht (.writeFile raw data)
+  simp only [FS.Step, hn] at this
+  exact mut_ok_iff this
+
+/-- Streams: a `Writer` that is opened, fed any chunks and closed is a `WriteFile` of their
+concatenation (it truncates; old content never survives) — same verdict, same tree. -/
+theorem writer_exact (ref : FSRef) (b : List Name) (hv : ViewOK ref b) (t : Node) (ht : Inv t)
+    (raw : Bytes) (chunks : List Bytes) :
+    (step ref t (.writer raw chunks)).2 = (step ref t (.writeFile raw chunks.flatten)).2
+    ∧ abs (step ref t (.writer raw chunks)).1 = abs (step ref t (.writeFile raw chunks.flatten)).1 :=
+  writer_eq_write ref b hv t ht raw chunks
+
+/-- "mkdir is idempotent": a `MkdirAll` that succeeded succeeds again and changes nothing. -/
+theorem mkdir_idempotent (ref : FSRef) (b : List Name) (hv : ViewOK ref b) (t : Node) (ht : Inv t)
+    (raw : Bytes) (hok : (step ref t (.mkdirAll raw)).2 = .ok) :
+    (step ref (step ref t (.mkdirAll raw)).1 (.mkdirAll raw)).2 = .ok
+    ∧ abs (step ref (step ref t (.mkdirAll raw)).1 (.mkdirAll raw)).1 = abs (step ref t (.mkdirAll raw)).1 :=
+  mkdir_twice ref b hv t ht raw hok
+
+/-- "remove deletes a file or an empty directory only": `Remove` succeeds exactly when the path is
+not the (view's) root and holds a file or a directory without children; then that one path
+disappears and every other path keeps its entry; otherwise the tree is untouched. -/
+theorem remove_only_file_or_empty_dir (ref : FSRef) (b : List Name) (hv : ViewOK ref b) (t : Node)
+    (ht : Inv t) (raw : Bytes) (p : List Name) (hn : norm raw = some p) :
+    ((step ref t (.remove raw)).2 = .ok ↔
+        p ≠ [] ∧ ((∃ d, abs t (b ++ p) = some (.file d))
+                  ∨ (abs t (b ++ p) = some .dir ∧ ∀ n, abs t (b ++ p ++ [n]) = none)))
+    ∧ ((step ref t (.remove raw)).2 = .ok →
+        ∀ q, abs (step ref t (.remove raw)).1 q = if q = b ++ p then none else abs t q)
+    ∧ ((step ref t (.remove raw)).2 ≠ .ok → (step ref t (.remove raw)).1 = t) := by
+  obtain ⟨h1, h2, h3⟩ := remove_spec ref b hv t ht raw p hn
+  refine ⟨?_, fun hok q => by rw [h2 hok]; rfl, h3⟩
+  rw [h1]
+  simp only [FS.removeOk]
+  constructor
+  · rintro ⟨a, _, c⟩; exact ⟨a, c⟩
+  · rintro ⟨a, c⟩; exact ⟨a, by simp [a], c⟩
+
+/-- "recursive remove deletes the subtree": `RemoveAll` succeeds exactly on an existing path other
+than the (view's) root; then every path at or below it is gone and every other path keeps its entry. -/
+theorem removeAll_subtree (ref : FSRef) (b : List Name) (hv : ViewOK ref b) (t : Node) (ht : Inv t)
+    (raw : Bytes) (p : List Name) (hn : norm raw = some p) :
+    ((step ref t (.removeAll raw)).2 = .ok ↔ p ≠ [] ∧ abs t (b ++ p) ≠ none)
+    ∧ ((step ref t (.removeAll raw)).2 = .ok →
+        ∀ q, abs (step ref t (.removeAll raw)).1 q = if b ++ p <+: q then none else abs t q)
+    ∧ ((step ref t (.removeAll raw)).2 ≠ .ok → (step ref t (.removeAll raw)).1 = t) := by
+  obtain ⟨h1, h2, h3⟩ := removeAll_spec ref b hv t ht raw p hn
+  refine ⟨?_, fun hok q => by rw [h2 hok]; rfl, h3⟩
+  rw [h1]
+  simp only [FS.removeAllOk]
+  constructor
+  · rintro ⟨a, _, c⟩; exact ⟨a, c⟩
+  · rintro ⟨a, c⟩; exact ⟨a, by simp [a], c⟩
+
+/-- "copies are deep" (1): after a successful `Copy` of `s` to `d`, what stands at `d ++ r` is what
+stood at `s ++ r`, for every `r` (when the source is not an ancestor of the destination; in general it
+is the source as it is once the destination's missing parents exist), and nothing outside `d` and
+its prefixes changes. -/
+theorem copy_deep (ref : FSRef) (b : List Name) (hv : ViewOK ref b) (t : Node) (ht : Inv t)
+    (rs rd : Bytes) (s d : List Name) (hs : norm rs = some s) (hd : norm rd = some d)
+    (hok : (step ref t (.copy rs rd)).2 = .ok) :
+    (∀ r, abs (step ref t (.copy rs rd)).1 (b ++ d ++ r)
+            = FS.mkdirSt (abs t) (b ++ d).dropLast (b ++ s ++ r))
+    ∧ (¬ (b ++ s) <+: (b ++ d) →
+        ∀ r, abs (step ref t (.copy rs rd)).1 (b ++ d ++ r) = abs t (b ++ s ++ r))
+    ∧ (∀ q, ¬ (b ++ d) <+: q → ¬ q <+: (b ++ d) → abs (step ref t (.copy rs rd)).1 q = abs t q) := by
+  rw [(copy_spec ref b hv t ht rs rd s d hs hd).2 hok]
+  exact ⟨fun r => copySt_under _ _ _ r, fun h r => copySt_under_plain _ _ _ r h,
+    fun q h1 h2 => copySt_outside _ _ _ q h1 h2⟩
+
+/-- "copies are deep" (2): the copy shares nothing with its source.  After the copy, a later write
+anywhere outside `d` — in particular under the source `s` — changes nothing at or below `d`. -/
+theorem copy_independent (ref : FSRef) (b : List Name) (hv : ViewOK ref b) (t' : Node) (ht' : Inv t')
+    (raw data : Bytes) (w d r : List Name) (hn : norm raw = some w)
+    (hok : (step ref t' (.writeFile raw data)).2 = .ok) (hout : ¬ d <+: b ++ w) :
+    abs (step ref t' (.writeFile raw data)).1 (d ++ r) = abs t' (d ++ r) := by
+  rw [write_post ref b hv t' ht' raw data w hn hok]
+  exact writeSt_frame _ _ _ _ (fun hp => hout ((List.prefix_append d r).trans hp))
+
+/-- `Copy` succeeds exactly when the destination is not the root, the source exists, no node on the
+way to the destination is a file and the destination does not exist. -/
+theorem copy_ok_iff (ref : FSRef) (b : List Name) (hv : ViewOK ref b) (t : Node) (ht : Inv t)
+    (rs rd : Bytes) (s d : List Name) (hs : norm rs = some s) (hd : norm rd = some d) :
+    (step ref t (.copy rs rd)).2 = .ok ↔ FS.copyOk .any (abs t) (b ++ s) (b ++ d) :=
+  (copy_spec ref b hv t ht rs rd s d hs hd).1
+
+/-- "queries agree with the tree": the seven read-type methods (and `Filespace`) never change the
+tree; existence, file content and directory listings are those of the abstract tree (a listing is
+duplicate-free and contains exactly the children with their kinds).  The remaining answers
+(`IsFile`, `IsDir`, `Lstat`, `Reader`) are the clauses of `FS.Step` in `memfs_refines`. -/
+theorem queries_agree (ref : FSRef) (b : List Name) (hv : ViewOK ref b) (t : Node) (ht : Inv t)
+    (raw : Bytes) (p : List Name) (hn : norm raw = some p) :
+    (∀ op, isQuery op = true → (step ref t op).1 = t)
+    ∧ (step ref t (.isExist raw)).2 = .bool (abs t (b ++ p)).isSome
+    ∧ (∀ d, abs t (b ++ p) = some (.file d) → (step ref t (.readFile raw)).2 = .data d)
+    ∧ ((∀ d, abs t (b ++ p) ≠ some (.file d)) → (step ref t (.readFile raw)).2 = .err)
+    ∧ (abs t (b ++ p) = some .dir →
+        ∃ l, (step ref t (.readDir raw)).2 = .list l ∧ FS.IsListing (abs t) (b ++ p) l) :=
+  ⟨fun op h => query_unchanged ref t op h, isExist_agrees ref b hv t ht raw p hn,
+   fun d h => readFile_agrees ref b hv t ht raw p hn d h,
+   fun h => readFile_fails ref b hv t ht raw p hn h,
+   fun h => readDir_agrees ref b hv t ht raw p hn h⟩
+
+/-- Read-after-write across spellings and handles: what any `WriteFile` stored is what a `ReadFile`
+of any spelling of the same path returns, through any other handle that reaches that path. -/
+theorem read_after_write (ref ref' : FSRef) (b b' : List Name) (hv : ViewOK ref b) (hv' : ViewOK ref' b')
+    (t : Node) (ht : Inv t) (raw raw' data : Bytes) (p p' : List Name)
+    (hn : norm raw = some p) (hn' : norm raw' = some p') (hsame : b ++ p = b' ++ p')
+    (hok : (step ref t (.writeFile raw data)).2 = .ok) :
+    (step ref' (step ref t (.writeFile raw data)).1 (.readFile raw')).2 = .data data := by
+  have ht1 := wf_preserved ref b hv t ht (.writeFile raw data)
+  apply readFile_agrees ref' b' hv' _ ht1 raw' p' hn'
+  rw [← hsame]
+  exact (write_creates_parents ref b hv t ht raw data p hn hok).1
+
+/-- A path that climbs above the root of the handle it is given to is refused and has no effect. -/
+theorem climbing_path_refused (ref : FSRef) (b : List Name) (hv : ViewOK ref b) (t : Node) (ht : Inv t)
+    (raw data : Bytes) (hn : norm raw = none) :
+    step ref t (.writeFile raw data) = (t, .err) ∧ (step ref t (.readFile raw)).2 = .err
+    ∧ (step ref t (.isExist raw)).2 = .bool false :=
+  climbing_refused ref b hv t ht raw data hn
+
+/-- "No node that was never created ever appears": after any history, every segment of every
+existing path is a real name (never `""`, `.`, `..`) that stands literally between two `/` in a
+path argument of some call of the history. -/
+theorem no_phantom (ops : List (Nat × Op)) (q : List Name)
+    (h : abs (World.init.run ops).1.root q ≠ none) :
+    ∀ s ∈ q, Plain s ∧ ∃ x ∈ ops, ∃ raw ∈ opPaths x.2, s ∈ split raw :=
+  fun s hs => supplied_literal ops s (no_phantom_run ops q h s hs)
+
+-- MkdirAll("."), WriteFile("a/../."), MkdirAll("./x/..") leave the tree empty (no node `.`)
+example :
+    (World.init.run [(0, .mkdirAll [46]), (0, .writeFile [97, 47, 46, 46, 47, 46] [1]),
+        (0, .mkdirAll [46, 47, 120, 47, 46, 46]), (0, .readDir [])]).2
+      = [.ok, .err, .ok, .list []] := by decide
+-- remove: non-empty directory refused, file accepted, then the emptied directory accepted
+example :
+    (World.init.run [(0, .writeFile [97, 47, 98] []), (0, .remove [97]), (0, .remove [97, 47, 98]),
+        (0, .remove [97]), (0, .remove [97])]).2 = [.ok, .err, .ok, .ok, .err] := by decide
+-- copy a → c is deep: a later write under a is not seen under c
+example :
+    (World.init.run [(0, .writeFile [97, 47, 98] [1]), (0, .copy [97] [99]),
+        (0, .writeFile [97, 47, 98] [2]), (0, .readFile [99, 47, 98]), (0, .readFile [97, 47, 98])]).2
+      = [.ok, .ok, .ok, .data [1], .data [2]] := by decide
+-- a Writer truncates: "hello" then a writer with chunks "a","b" leaves "ab"
+example :
+    (World.init.run [(0, .writeFile [102] [104, 101, 108, 108, 111]), (0, .writer [102] [[97], [98]]),
+        (0, .readFile [102])]).2 = [.ok, .ok, .data [97, 98]] := by decide
 
 end Goat.C01
